@@ -380,15 +380,15 @@ impl Parse for ConversionsAttribute {
                 ahead.parse::<syn::Path>()
             };
             match res {
-                Ok(p) if p.is_ident("owned") => {
+                Ok(p) if p.is_ident("owned") && !ahead.peek(token::PathSep) => {
                     has_wrapped_type = true;
                     parse_inner(ahead, &mut out.owned)?;
                 }
-                Ok(p) if p.is_ident("ref") => {
+                Ok(p) if p.is_ident("ref") && !ahead.peek(token::PathSep) => {
                     has_wrapped_type = true;
                     parse_inner(ahead, &mut out.r#ref)?;
                 }
-                Ok(p) if p.is_ident("ref_mut") => {
+                Ok(p) if p.is_ident("ref_mut") && !ahead.peek(token::PathSep) => {
                     has_wrapped_type = true;
                     parse_inner(ahead, &mut out.ref_mut)?;
                 }
